@@ -12,7 +12,9 @@ COMPONENTS_BASE = {
              "CPython 3.12 builtins / itertools / heapq / functools / contextlib as reference implementations",
              "CPython async generators, coroutines, async-with statement, asyncgen finaliser hooks"],
     "stub": ["event loop: aslsim.loop.Sim (seeded scheduler, virtual clock, token protocol)",
-             "locks: aslsim.loop.SimLock (plain mutex driven by the simulator)"],
+             "locks: aslsim.loop.SimLock (plain mutex driven by the simulator)",
+             "wall clock: aslsim.vclock (time.monotonic/time/perf_counter/process_time and _ns twins answer with a virtual "
+             "clock inside a run; slow sources let virtual seconds pass); the pinned library never reads it"],
     "workload": ["streams, callables, context managers, getters: generated per run from the scenario stream"],
 }
 COMPONENTS_AIO = dict(
